@@ -74,6 +74,16 @@ PROPS = {
                      "violation; the other peers' transcripts are compared with the reference model (remove events, shutdown errors, nothing else), the "
                      "descriptor-hygiene monitor and the sanitizers watch the released connection. Non-trivial = the ending peer owned an element with "
                      "effects, or had a routed request in either role; distinct = scenario hash."),
+    "C11": scen("c11", ["default"], level="fault_enumeration",
+                quick=dict(cases=900, size=60), thorough=dict(cases=30000, size=100, budget_s=3000),
+                rule="rapidcheck-generated multi-peer histories (add/remove/change/fetch/set/call/reply/timeouts) in which a generated subset of peers is made "
+                     "faulty at generated moments: send path full forever (EAGAIN), kernel accepts only 3 or 40 more bytes, writes fail with EPIPE/ECONNRESET, "
+                     "the peer sends garbage, or accept() fails with ECONNABORTED/EMFILE/ENFILE/EINTR/ENOMEM/EPROTO for the next connection attempts; one faulty "
+                     "subscriber is registered before all healthy ones. A healthy observer holds a fetch-all and issues get after every operation. Healthy "
+                     "peers' transcripts must equal the fault-aware model (a faulty peer may be dropped, which is then an ordinary disconnect; a requester "
+                     "may get an error instead of a result only where a delivery to a faulty peer was involved, and the request must still have taken effect). "
+                     "Non-trivial = at least one step delivered to a faulty peer while healthy peers were entitled to messages, or an injected accept failure "
+                     "followed by further connects; distinct = scenario hash."),
 }
 
 def plan_workers(spec, tier, nproc):
